@@ -2,6 +2,9 @@
 //! encode_rev_1, encode_array, encode_rev_array} in every table configuration.
 //! The models in crate::verif_models are these contracts in executable form; each
 //! obligation below proves "real function == model" over the full input domain.
+// decode_1/decode_array/encode_array are configured out when hex_simd takes over (simd rows);
+// the rev variants are the same code in every row and are proved in the non-simd rows.
+#![cfg(not(any(feature = "opt-simd-parse-hex", feature = "opt-simd-convert-hex")))]
 #![allow(missing_docs, unused_imports)]
 use crate::verif_models::*;
 use crate::verif_spec::*;
